@@ -354,7 +354,17 @@ impl Session<'_> {
                 Ok(None)
             }
             DoesNotExist => Ok(None),
-            Unchanged { state, .. } | Changed { state } => Ok(state.remove(key)),
+            Changed { state } => Ok(state.remove(key)),
+            Unchanged { state, .. } => {
+                let removed = state.remove(key);
+                if removed.is_some() {
+                    // The state must be marked as changed, otherwise the removal
+                    // won't be persisted when the session is synced with the store.
+                    let state = std::mem::take(state);
+                    self.server_state = new_cell_with(Some(ServerState::Changed { state }));
+                }
+                Ok(removed)
+            }
         }
     }
 
